@@ -94,8 +94,14 @@ def structures(tier):
     return out
 
 
-def to_spec(struct, order, pal, volts, phased, pol=1, prefix_names=False):
-    L = letters(pal)
+def to_spec(struct, order, pal, volts, phased, pol=1, prefix_names=False, nano=False):
+    L = dict(letters(pal))
+    if nano:   # nano-watt subsystems: a few nW are a power like any other (efficiency of a Subsystem / the total is still 100 (P-L)/P)
+        L["IL"] = ("ILoad", dict(ii=1.1e-9))
+        L["PLx"] = ("PLoad", dict(pwr=2.3e-9, loss=True))
+        L["CVc"] = ("Converter", dict(vo=1.2, eff=0.8, iq=0.4e-9))
+        L["RL"] = ("RLoss", dict(rs=5.0e6))
+        L["MX"] = ("PMux", dict(rs=1.0e6, ig=0.2e-9))
     V = PALETTES[pal]["V"]
     lk = {"R": "RL", "C": "CVc", "I": "IL", "P": "PLx", "M": "MX"}
     comps = []
@@ -229,7 +235,7 @@ def check_case(case):
     orders = linear_extensions(struct)
     ref = None
     for o in orders:
-        spec = to_spec(struct, o, case["pal"], case["volts"], case["phased"], case.get("pol", 1), case.get("prefix", False))
+        spec = to_spec(struct, o, case["pal"], case["volts"], case["phased"], case.get("pol", 1), case.get("prefix", False), nano=case.get("nano", False))
         if case.get("blank_phase") and spec.get("phases"):   # the empty string as a phase name (accepted by set_sys_phases)
             ren = {"a": ""}
             spec["phases"] = {ren.get(k, k): v for k, v in spec["phases"].items()}
@@ -250,7 +256,13 @@ def check_case(case):
         if case.get("rephase") and spec.get("phases"):
             # "after any edit history": the durations are changed after a first analysis; the aggregates must follow the NEW durations
             newph = {k: v * m for (k, v), m in zip(spec["phases"].items(), (3.0, 0.5, 2.0))}
-            s.set_sys_phases(dict(newph))
+            if case["rephase"] == "alias":   # the dict handed out by get_sys_phases() is edited and handed back (the very same object)
+                live = s.get_sys_phases()
+                for k_, v_ in newph.items():
+                    live[k_] = v_
+                s.set_sys_phases(live)
+            else:
+                s.set_sys_phases(dict(newph))
             spec = dict(spec, phases=newph)
             df, _ = quiet_call(s.solve, energy=case["energy"])
             res.stats["transitions"] += 2
@@ -307,6 +319,9 @@ def gen_cases(tier):
                 yield dict(struct={k: [v[0], list(v[1])] for k, v in st.items()}, pal=pal, volts=list(volts), phased=False, energy=False, holes=True)
             if len(st) <= 5:  # phase durations edited between two analyses
                 yield dict(struct={k: [v[0], list(v[1])] for k, v in st.items()}, pal=pal, volts=list(volts), phased=True, energy=True, rephase=True)
+                yield dict(struct={k: [v[0], list(v[1])] for k, v in st.items()}, pal=pal, volts=list(volts), phased=True, energy=True, rephase="alias")
+                for ph_ in (False, True):
+                    yield dict(struct={k: [v[0], list(v[1])] for k, v in st.items()}, pal=pal, volts=list(volts), phased=ph_, energy=ph_, nano=True)
             if len(st) <= 5:
                 for scale in (21600.0, 151200.0, 1e-3):
                     yield dict(struct={k: [v[0], list(v[1])] for k, v in st.items()}, pal=pal, volts=list(volts), phased=True, energy=True, scale=scale)
